@@ -444,7 +444,7 @@ type lastSegInfo struct {
 
 // availabilityTime returns the availability time of the last segment given ato.
 func (l lastSegInfo) availabilityTime(ato float64) float64 {
-	return math.Round(float64(l.startTime+l.dur)/float64(l.timescale)) - ato
+	return float64(l.startTime+l.dur)/float64(l.timescale) - ato
 }
 
 // generateTimelineEntries generates timeline entries for the given representation.
